@@ -238,6 +238,7 @@ func (e *Env) doArmGateClose(op *Op) {
 // wfaults
 
 type faultWriter struct {
+	full    bool // with once: the failing call accepts ALL its bytes and still returns the error (io.Writer allows n == len(p) with err != nil)
 	once    int // >= 0: the single Write call that would carry byte `once` fails (accepting nothing), later ones succeed
 	onceHit bool
 	limit   int // bytes accepted before failing; -1 = never fail
@@ -253,6 +254,11 @@ var errInjected = fmt.Errorf("injected write failure")
 func (w *faultWriter) Write(p []byte) (int, error) {
 	if w.once >= 0 && !w.onceHit && w.n+len(p) > w.once {
 		w.onceHit = true
+		if w.full {
+			w.buf.Write(p)
+			w.n += len(p)
+			return len(p), errInjected
+		}
 		return 0, errInjected
 	}
 	if w.limit >= 0 && w.n+len(p) > w.limit {
@@ -367,7 +373,7 @@ func (e *Env) doWFaults(op *Op) {
 				"outcomes": [][]interface{}{{len(full0) + 1, "nil", len(full), false, false, clampSigned(int(rn))}}, "res": M{"kind": "ok"}})
 			continue
 		}
-		modes := []string{"fail", "fail1", "failsync"} // fail1: one Write call fails, the destination works again afterwards; failsync: "fail" on a destination that has a Sync method
+		modes := []string{"fail", "fail1", "failsync", "fullerr1"} // fail1: one Write call fails, the destination works again afterwards; failsync: "fail" on a destination that has a Sync method
 		if kind == "merge" {
 			modes = append(modes, "close", "retry")
 		}
@@ -392,6 +398,11 @@ func (e *Env) doWFaults(op *Op) {
 					step = s
 				}
 			}
+			if mode == "fullerr1" && kind == "merge" {
+				if s := L / 48; s > step {
+					step = s
+				}
+			}
 			if mode == "retry" {
 				run = mkRetry(buf)
 				if s := L / 12; s > step {
@@ -402,8 +413,9 @@ func (e *Env) doWFaults(op *Op) {
 				w := &faultWriter{once: -1, limit: -1, closeAt: -1, ch: make(chan struct{})}
 				if mode == "fail" || mode == "retry" || mode == "failsync" {
 					w.limit = k
-				} else if mode == "fail1" {
+				} else if mode == "fail1" || mode == "fullerr1" {
 					w.once = k
+					w.full = mode == "fullerr1"
 				} else {
 					w.closeAt = k
 					if k == 0 {
